@@ -130,6 +130,37 @@ CLAIMS = {
              "each in 1..5 (derived from its code for all 65536 values at once), that the translator cannot raise for any admitted address, that both "
              "validations dominate queueing/forwarding, and that every reachable loop has a bounded variant.",
         ref="DESIGN.md section 5 C15"),
+    "C16": dict(
+        technique="abstract interpretation of the allocator with a symbolic lease table (dict iteration on fresh (ID, address) symbols): candidate enumeration per relay, path atoms by value role, writer/reader agreement of the persistence formats",
+        text="Decides the structure of the master's allocator: the candidates handed to set_address for direct and relayed requests are exactly the "
+             "relay's children (digit 5/4..1, descending), never 0 or 0o4444; an address is leased only after the scan of the table ran to exhaustion "
+             "and every scanned entry is excluded by 'other address' or 'same ID'; one lease per request keyed by ID; the reply (type, destination, "
+             "reserved = ID, payload = '<H' of the leased address, physical vs routed); no iteration continues after the table was modified; binary "
+             "and JSON persistence writer/reader agreement; release deletes exactly the matching entry; update() arms the allocator only for requests "
+             "carrying an ID. Enumeration of request/release histories is declined.",
+        ref="DESIGN.md section 5 C16"),
+    "C17": dict(
+        technique="abstract interpretation of the lookup/join API with scripted update() summaries: return-code table, writer/reader agreement of the four lookup wire formats, clock-exit analysis of the blocking loops",
+        text="Decides that lookup_address/lookup_node_id of both mesh classes return the documented constants on the documented paths, ask the master "
+             "exactly once, that the master answers exactly once from the right table column or with -2, that the four request/reply formats agree "
+             "end to end and can carry -2 and -1, that renew_address / lookups / mesh send end through their clock tests with None / -1 / False and "
+             "never raise when nobody answers, and the release_address / check_connection constants. Join success and address distinctness across "
+             "nodes need multi-node schedules and are declined.",
+        ref="DESIGN.md section 5 C17"),
+    "C18": dict(
+        technique="linear length algebra and part-provenance of the assembled packet (symbolic name/payload lengths), guard region of the ValueError, paired-update analysis of (whitening index, RF_CH) over all methods that tune the radio",
+        text="Decides for all name/payload lengths that the assembled length is 2+6+3+3[pa]+(N+2)[name]+P+3, that ValueError is raised exactly when it "
+             "exceeds 32 (before anything reaches the radio), that len_available() == 32 - total identically, the field order and AD constants, CRC "
+             "coverage, the order CRC -> whiten -> bit-reverse -> send, and that after hop_channel(), every `channel = x` and construction the tuned "
+             "frequency is BLE_FREQ[whitening index] with seed (37+index)|0x40. The numerics of CRC-24 / whitening / bit reversal are declined.",
+        ref="DESIGN.md section 5 C18"),
+    "C19": dict(
+        technique="exception-escape analysis of FakeBLE.available() on 32 arbitrary bytes (collected raise-capable sites discharged by guard facts), dominance of length/CRC tests, encoder/decoder offset and signedness agreement, queue discipline scan",
+        text="Decides that no subscript, struct.unpack or conversion reachable from available() can raise for any 32 received bytes, that decoding and "
+             "queueing are dominated by end < 30 and a successful CRC comparison, that the decoder takes UUID/data/TX power from the offsets the "
+             "encoders write them to, that a truncated two's-complement value is sign-extended by its decoder, and that rx_queue is tail-appended only "
+             "by available() and head-consumed only by read(). Value round trips and bit-flip enumeration are declined.",
+        ref="DESIGN.md section 5 C19"),
 }
 
 NOT_APPLICABLE_REASON = "check not built yet (build in progress, see DESIGN.md section 9)"
